@@ -10,9 +10,9 @@ META = dict(
     level="exploration",
     technique="breadth-first exploration with state hashing over two real Telnet objects joined by FIFO queues (every state is reached by re-executing its action path from the initial state), complete for a bounded number of requests; Hypothesis for longer runs, 3 options and mixed accept/refuse policies",
     level_text="Quick: every reachable state for 2 options and up to 4 requests (all-accepting policies) and up to 6 (4) requests for two (one more) refusing-policy configurations, all delivery interleavings included. Thorough: the same for up to 6 requests (the scope named in the property) and 3 options with up to 4 requests. Requests may carry a follow-up request that the application issues re-entrantly from inside the result callback (complete for 1 option and up to 4 (thorough 6) requests, sampled beyond). Every explored state is additionally ended by a connection loss on both sides, after which every request Deferred must have fired exactly once. Beyond that, random histories of up to 60 actions over 3 options with random policies, follow-ups nested two deep, random drain order or a connection loss on either or both sides. The oracle is checked at every step and at every moment with no message in flight.",
-    level_note="State hash = per option (state, negotiating, onResult set) of both perspectives on both sides + both queues + requests used + messages sent + unfired Deferreds; two paths with equal hash are assumed to have equal futures (true if Telnet keeps no other negotiation state). A policy is one accept-set per side used for enableLocal and enableRemote; a side only issues requests about options it accepts (the statement's precondition). Follow-up requests are not issued once the connection is lost. Connection loss is read as inside 'every request Deferred fires exactly once' (Telnet.connectionLost exists for exactly that); agreement of the sides is not checked after a loss. Results of Deferreds are additionally compared with the option state at the moment of firing, as documented in ITelnetTransport.",
+    level_note="State hash = per option (state, negotiating, onResult set) of both perspectives on both sides + both queues + requests used + messages sent + unfired Deferreds; two paths with equal hash are assumed to have equal futures (true if Telnet keeps no other negotiation state). A policy is one accept-set per side used for enableLocal and enableRemote; a side only issues requests about options it accepts (the statement's precondition). The endpoints may send subnegotiations and application bytes between the option messages (a telnet connection always carries them); only the negotiation claims of the statement are asserted about such histories. Follow-up requests are not issued once the connection is lost. Connection loss is read as inside 'every request Deferred fires exactly once' (Telnet.connectionLost exists for exactly that); agreement of the sides is not checked after a loss. Results of Deferreds are additionally compared with the option state at the moment of firing, as documented in ITelnetTransport.",
     design_ref="§5 C39",
-    rule="case = (number of options, accept-set per side, action list of requests [side, will/wont/do/dont, option, optional follow-up issued from the result callback] and deliveries [direction], drain order or connection loss). non-trivial = some request was accepted for sending while at least one negotiation message was in flight; distinct by the whole action list and policy.",
+    rule="case = (number of options, accept-set per side, action list of requests [side, will/wont/do/dont, option, optional follow-up issued from the result callback] deliveries [direction] (one message, or everything queued in one dataReceived), other traffic of the same connection (requestNegotiation payloads, escaped application bytes), drain order or connection loss). non-trivial = some request was accepted for sending while at least one negotiation message was in flight; distinct by the whole action list and policy.",
 )
 
 VERBS = ("will", "wont", "do", "dont")
@@ -86,6 +86,7 @@ class World:
         self.problems = []      # (signature, detail) noticed inside Deferred callbacks
         self.crossing = False
         self.nreq = 0
+        self.nother = 0         # subnegotiations / application writes sharing the connection
         self.lost = False       # connectionLost delivered: follow-up requests are no longer issued
         self.counting = True
         self.counts = []        # class labels noticed inside callbacks (flushed by execute)
@@ -108,7 +109,7 @@ class World:
 
     def key(self):
         return (self.snap(0), self.snap(1), tuple(self.queues[0].q), tuple(self.queues[1].q),
-                self.nreq, self.sent, self.unfired())
+                self.nreq, self.sent, self.unfired(), self.nother)
 
     def quiescent(self):
         return not self.queues[0].q and not self.queues[1].q
@@ -182,6 +183,22 @@ class World:
             self.crossing = True
         return rec
 
+    def other(self, side, kind, payload):
+        """Other traffic of the same connection: a subnegotiation or application bytes."""
+        self.nother += 1
+        if kind == "s":
+            self.ends[side].requestNegotiation(b"\x1f", payload)
+        else:
+            self.queues[side].write(payload.replace(b"\r", b"").replace(b"\xff", b"\xff\xff"))
+
+    def deliver_all(self, side):
+        """Everything `side` has written so far arrives at the peer in one dataReceived."""
+        q = self.queues[side].q
+        if q:
+            data = b"".join(q)
+            del q[:]
+            self.ends[1 - side].dataReceived(data)
+
     def deliver(self, side, want_label=True):
         """Deliver the oldest message written by `side` to its peer; -> handler label or None."""
         q = self.queues[side].q
@@ -223,8 +240,8 @@ def _step_checks(ctx, case, w):
     if w.problems:
         sig, detail = w.problems[0]
         _fail(ctx, case, w, sig, detail)
-    if w.sent > 4 * w.nreq:
-        _fail(ctx, case, w, "message-loop", f"{w.sent} messages for {w.nreq} requests")
+    if w.sent > 4 * w.nreq + w.nother:
+        _fail(ctx, case, w, "message-loop", f"{w.sent} messages for {w.nreq} requests (+{w.nother} other writes)")
     if w.quiescent():
         for r in w.reqs:
             if r[3] != 1:
@@ -263,6 +280,16 @@ def execute(ctx, case):
                 ctx.count("request: " + (rec[4] if rec[4] not in (None, "ok") else "sent"))
                 if then is not None:
                     ctx.count("request carrying a follow-up request")
+        elif act[0] in ("s", "a"):
+            w.other(act[1], act[0], act[2])
+            if counting:
+                ctx.count("other traffic on the connection: " + ("subnegotiation" if act[0] == "s" else "application bytes"))
+                if act[0] == "s" and b"\xff\xf0" in act[2]:
+                    ctx.count("subnegotiation payload containing IAC SE (ff f0)")
+        elif act[0] == "D":
+            if counting and len(w.queues[act[1]].q) > 1:
+                ctx.count("several messages delivered in one dataReceived")
+            w.deliver_all(act[1])
         else:
             label = w.deliver(act[1], counting)
             if counting and label:
@@ -294,7 +321,7 @@ def run_case(ctx, case):
             if label:
                 ctx.count(label)
             n += 1
-            if n > 4 * w.nreq + 8:
+            if n > 4 * w.nreq + w.nother + 8:
                 _fail(ctx, case, w, "message-loop", f"still not quiescent after {n} deliveries for {w.nreq} requests")
             _step_checks(ctx, case, w)
             for label in w.counts:
@@ -327,7 +354,12 @@ def run_case(ctx, case):
 # --------------------------------------------------------------------------
 # complete exploration of a bounded scope
 
-def bfs_cases(ctx, nopts, policy, maxreq, stats, reentrant=False):
+OTHERS = [[k, s, pl] for s in (0, 1)
+          for k, pl in (("s", b""), ("s", b"\xff"), ("s", b"\xf0"), ("s", b"\xff\xf0"), ("s", b"\xff\xff\xf0\x00"),
+                        ("a", b"\xff"), ("a", b"a\xff\xfd\x01"))]
+
+
+def bfs_cases(ctx, nopts, policy, maxreq, stats, reentrant=False, maxother=0):
     """Generator of cases for enumerate_run; reads the state reached by the case it
     just yielded from _LAST (written by run_case)."""
     reqs = [["r", s, v, o] for s in (0, 1) for v in VERBS for o in range(nopts) if o in policy[s]]
@@ -350,6 +382,8 @@ def bfs_cases(ctx, nopts, policy, maxreq, stats, reentrant=False):
             cands = []
             if nreq < maxreq:
                 cands += reqs
+            if sum(1 for a in path if a[0] in ("s", "a")) < maxother:
+                cands += OTHERS
             if qa:
                 cands.append(["d", 0])
             if qb:
@@ -374,27 +408,35 @@ def bfs_cases(ctx, nopts, policy, maxreq, stats, reentrant=False):
 ALL2 = [[0, 1], [0, 1]]
 # (options, policy, max requests, re-entrant follow-ups in the alphabet)
 SCOPES_QUICK = [(2, ALL2, 4, False), (2, [[0, 1], []], 6, False), (2, [[0], [1]], 6, False),
-                (2, [[0, 1], [0]], 4, False), (1, [[0], [0]], 4, True), (1, [[0], []], 4, True)]
+                (2, [[0, 1], [0]], 4, False), (1, [[0], [0]], 4, True), (1, [[0], []], 4, True),
+                (1, [[0], [0]], 2, False, 2)]
 SCOPES_THOROUGH = [(2, ALL2, 6, False), (2, [[0, 1], []], 6, False), (2, [[0], [1]], 6, False),
                    (2, [[0, 1], [0]], 5, False), (3, [[0, 1, 2], [0, 1, 2]], 4, False),
-                   (1, [[0], [0]], 6, True), (1, [[0], []], 6, True), (2, ALL2, 3, True)]
+                   (1, [[0], [0]], 6, True), (1, [[0], []], 6, True), (2, ALL2, 3, True),
+                   (1, [[0], [0]], 3, False, 3), (2, ALL2, 2, False, 2)]
 
 
 def _scope(ctx, scope):
-    nopts, policy, maxreq, reentrant = scope
+    nopts, policy, maxreq, reentrant = scope[:4]
+    maxother = scope[4] if len(scope) > 4 else 0
     stats = {"transitions": 0, "states": 0}
-    ok = enumerate_run(ctx, bfs_cases(ctx, nopts, policy, maxreq, stats, reentrant), run_case)
+    ok = enumerate_run(ctx, bfs_cases(ctx, nopts, policy, maxreq, stats, reentrant, maxother), run_case)
     _LAST.pop("key", None)
     ctx.count("bfs transitions", stats["transitions"])
     ctx.count("bfs distinct states", stats["states"])
-    ctx.extra[f"scope_{nopts}opts_{maxreq}req_policy_{policy}" + ("_reentrant" if reentrant else "")] = (
+    ctx.extra[f"scope_{nopts}opts_{maxreq}req_policy_{policy}" + ("_reentrant" if reentrant else "")
+              + (f"_with_{maxother}_other_writes" if maxother else "")] = (
         f"complete: {stats['states']} states, {stats['transitions']} transitions, depth {stats.get('depth')}"
         if ok and not ctx.has_violation() else "stopped at a violation")
 
 
 _THEN1 = st.tuples(st.sampled_from(VERBS), st.integers(0, 2)).map(list)
 _THEN = st.one_of(_THEN1, st.tuples(st.sampled_from(VERBS), st.integers(0, 2), _THEN1).map(list))
+_PAYLOAD = st.lists(st.sampled_from([0xFF, 0xF0, 0xFF, 0xF0, 0x00, 0xFA, 0xFB, 0x01, 0x61]), max_size=5).map(bytes)
 _ACT = st.one_of(
+    st.tuples(st.sampled_from(["s", "s", "a"]), st.integers(0, 1), _PAYLOAD).map(list),
+    st.tuples(st.just("D"), st.integers(0, 1)).map(list),
+    st.tuples(st.just("D"), st.integers(0, 1)).map(list),
     st.tuples(st.just("r"), st.integers(0, 1), st.sampled_from(VERBS), st.integers(0, 2)).map(list),
     st.tuples(st.just("r"), st.integers(0, 1), st.sampled_from(VERBS), st.integers(0, 2), _THEN).map(list),
     st.tuples(st.just("d"), st.integers(0, 1)).map(list),
